@@ -138,3 +138,19 @@ PROPS["C06"] = {
     "assumptions": _TCP_ASSUME + ["connections are established before bulk traffic starts (a lost SYN has no retransmission and is outside the statement)"],
     "timeout": {"quick": 1500, "thorough": 14400},
 }
+
+PROPS["C07"] = {
+    "level": "exploration",
+    "claim": {
+        "technique": "runtime monitoring: SYN arrival order from node probes vs accept completion order, pairing established by unique tokens exchanged over each connection, endpoint views sampled at completion and at the end",
+        "text": "Scenarios with 1-3 acceptors, 1-8 clients on natted/public, single/multi-homed, v4/v6 nodes, all three accept overloads, accepts posted before/after/long after the SYNs, connects to unbound, bound-not-listening and closed endpoints. Each accepted socket learns who is on the other end from a token, which is compared with the k-th SYN seen arriving at that acceptor; refusals must be connection_refused after a positive delay and leave nothing usable; the four endpoint equalities are read off the sockets.",
+        "note": "Unbounded queues only (SYN loss is not C07's subject); every path has at least one hop (with no hop the SYN+ACK would arrive inside async_connect); family-mismatching connects are not generated.",
+        "ref": "DESIGN.md 3/C07",
+    },
+    "rule": "cases = generated scenarios (nodes, NAT placement, acceptors, accept schedules with overload per accept, client connect schedule incl. bad targets, per-address latencies so SYN arrival order differs from initiation order). "
+            "Non-trivial = at least one pair was established; distinct = distinct scenario descriptors.",
+    "jobs": [{"engine": "conn", "args": {"n": T(3000, 150000)}}],
+    "require": {"quick": {"pairs_verified": 5000, "refusals_checked": 1000, "pairs_with_natted_connector": 500, "cases_with_several_pairs": 1000, "syns_left_queued": 200},
+                "thorough": {"pairs_verified": 300000}},
+    "assumptions": ["client ports are unique within a simulation (ephemeral allocation), used to identify SYNs on the probe"],
+}
